@@ -267,12 +267,9 @@ func (bwu *BaseWorkUnit) Save() error {
 
 // loadFromFile loads status from an already open file.
 func (sfd *StatusFileData) loadFromFile(file io.Reader) error {
-	jsonBytes, err := io.ReadAll(file)
-	if err != nil {
-		return err
-	}
-
-	return json.Unmarshal(jsonBytes, sfd)
+	// Only the first JSON value is the record: an update that was interrupted after writing the new record and
+	// before cutting the file to its length leaves a stale tail behind it.
+	return json.NewDecoder(file).Decode(sfd)
 }
 
 // Load loads status from a file.
@@ -358,18 +355,24 @@ func (sfd *StatusFileData) UpdateFullStatus(filename string, statusFunc func(*St
 	if err != nil {
 		return err
 	}
-	err = file.Truncate(0)
-	if err != nil {
-		return err
-	}
-	verifhook.Emit("sf", "sf_trunc", "file", filename)
-	verifhook.CrashPoint("ufs_after_trunc")
+	// Write the new record over the old one first and cut the file to its length afterwards, so that the file
+	// holds a complete record at every instant (a process killed between truncate and write used to leave it empty).
 	err = sfd.saveToFile(file)
 	if err != nil {
 		return err
 	}
 	verifhook.Emit("sf", "sf_write", "file", filename, "state", sfd.State, "size", sfd.StdoutSize, "type", sfd.WorkType, "rec", sfd.verifRec())
 	verifhook.CrashPoint("ufs_after_write")
+	newSize, err := file.Seek(0, 1)
+	if err != nil {
+		return err
+	}
+	err = file.Truncate(newSize)
+	if err != nil {
+		return err
+	}
+	verifhook.Emit("sf", "sf_trunc", "file", filename)
+	verifhook.CrashPoint("ufs_after_trunc")
 
 	return nil
 }
